@@ -27,9 +27,10 @@ def main():
     rc1, o1 = sh(f"/venv/bin/python {demo.name}", wt, timeout=600)
     out["demo_with_change_exit"] = rc1
     out["demo_with_change_tail"] = o1.strip()[-400:]
-    sh("git stash -q -- pyhms", wt)
+    # (git stash is shared by all worktrees of a repository: revert / re-apply the diff instead)
+    sh("git diff -- pyhms > .seed_patch && git apply -R .seed_patch", wt)
     rc2, o2 = sh(f"/venv/bin/python {demo.name}", wt, timeout=600)
-    sh("git stash pop -q", wt)
+    sh("git apply .seed_patch && rm -f .seed_patch", wt)
     out["demo_without_change_exit"] = rc2
     rc, diff = sh("git diff -- pyhms", wt)
     dest = VERIF / "seeded" / sid
